@@ -2,6 +2,7 @@
 //! properties: C01
 //! note: the receiving side's acceptance tests on update_add_htlc (ChannelContext::validate_update_add_htlc): a peer HTLC that keeps the sender above the reserve we selected, within our in-flight and count limits, is not refused; anything that violates one of them is
 //! trusted: R15 (statement slicing): validate_update_add_htlc calls get_next_remote/local_commitment_stats (proved in unit u01 as get_next_commitment_stats) through the channel context; the unit extracts, on every run, its four local `if <cond> { return Err(..) }` tests with their conditions verbatim and checks them as one method of a context skeleton {holder_max_accepted_htlcs, holder_max_htlc_value_in_flight_msat}; msg/funding/stats are field skeletons; error construction replaced by tags; the two stats calls are represented by their results (Err => refused is visible in the sliced text as `?` is dropped: stated here, not claimed)
+//! trusted: validate_update_fee is extracted whole; its callees get_next_local/remote_commitment_stats (thin wrappers of the builder function proved in u01), get_dust_exposure_limiting_feerate and get_max_dust_htlc_exposure_msat are external_body stubs returning uninterpreted values (local_stats_at / remote_stats_at / max_dust_exposure); FundingScope/ChannelContext self skeletons (R5); error messages dropped (R8)
 use vstd::prelude::*;
 verus! {
 pub struct UpdateAddHTLC { pub amount_msat: u64 }
@@ -38,6 +39,62 @@ impl ChannelContext {
     inbound_htlcs_value_msat > self.holder_max_htlc_value_in_flight_msat
 //@with
     inbound_htlcs_value_msat > self.holder_max_htlc_value_in_flight_msat.saturating_mul(2)
+//@end
+}
+
+// ---- a peer's update_fee is accepted only if the funder can still afford it (ChannelContext::validate_update_fee, whole function) ----
+pub struct HTLCAmountDirection {}
+pub struct ChannelTypeFeatures {}
+pub trait FeeEstimator {}
+pub struct LowerBoundedFeeEstimator<F: FeeEstimator>(pub F);
+pub struct FeeStats { pub counterparty_balance_msat: u64, pub dust_exposure_msat: u64 }
+pub struct FeeChannelStats { pub commitment_stats: FeeStats }
+pub struct FeeFundingScope { pub holder_selected_channel_reserve_satoshis: u64, pub ct: ChannelTypeFeatures }
+impl FeeFundingScope { #[verifier::external_body] pub fn get_channel_type(&self) -> (r: &ChannelTypeFeatures) { unimplemented!() } }
+pub enum ChannelError { Close(u8) }
+impl ChannelError { #[verifier::external_body] pub fn close(_m: u8) -> (r: ChannelError) { unimplemented!() } }
+pub struct FeeCtx {}
+// what the two commitment transactions would look like at the proposed feerate (get_next_commitment_stats, proved in unit u01)
+pub uninterp spec fn local_stats_at(c: FeeCtx, f: FeeFundingScope, feerate: u32) -> FeeChannelStats;
+pub uninterp spec fn remote_stats_at(c: FeeCtx, f: FeeFundingScope, feerate: u32) -> FeeChannelStats;
+pub uninterp spec fn max_dust_exposure(c: FeeCtx, limiting: Option<u32>) -> u64;
+impl FeeCtx {
+    #[verifier::external_body] pub fn get_dust_exposure_limiting_feerate<F: FeeEstimator>(&self, fee_estimator: &&LowerBoundedFeeEstimator<F>, ct: &ChannelTypeFeatures) -> (r: Option<u32>) { unimplemented!() }
+    #[verifier::external_body] pub fn get_max_dust_htlc_exposure_msat(&self, limiting: Option<u32>) -> (r: u64) ensures r == max_dust_exposure(*self, limiting) { unimplemented!() }
+    #[verifier::external_body] pub fn get_next_local_commitment_stats(&self, funding: &FeeFundingScope, htlc_candidate: Option<HTLCAmountDirection>, include_counterparty_unknown_htlcs: bool,
+        addl_nondust_htlc_count: usize, feerate_per_kw: u32, assume_fee_spike: bool, dust_exposure_limiting_feerate: Option<u32>) -> (r: Result<(FeeChannelStats, Vec<HTLCAmountDirection>), ()>)
+        ensures r is Ok ==> r->Ok_0.0 == local_stats_at(*self, *funding, feerate_per_kw) { unimplemented!() }
+    #[verifier::external_body] pub fn get_next_remote_commitment_stats(&self, funding: &FeeFundingScope, htlc_candidate: Option<HTLCAmountDirection>, include_counterparty_unknown_htlcs: bool,
+        addl_nondust_htlc_count: usize, feerate_per_kw: u32, assume_fee_spike: bool, dust_exposure_limiting_feerate: Option<u32>) -> (r: Result<(FeeChannelStats, Vec<HTLCAmountDirection>), ()>)
+        ensures r is Ok ==> r->Ok_0.0 == remote_stats_at(*self, *funding, feerate_per_kw) { unimplemented!() }
+//@extract lightning/src/ln/channel.rs :: impl ChannelContext :: fn validate_update_fee
+//@rw R5
+    funding: &FundingScope
+//@with
+    funding: &FeeFundingScope
+//@rw R8 *
+    ChannelError::close($m)
+//@with
+    ChannelError::close(0)
+//@rw R9 *
+    .map_err(|()| { $e })?
+//@with
+    .map_err(|_e: ()| -> (o: ChannelError) { $e })?
+//@ret r
+//@requires
+    funding.holder_selected_channel_reserve_satoshis <= 21_000_000_0000_0000,
+//@ensures P C01 a-fee-update-from-the-funder-is-accepted-only-if-it-keeps-the-funder-at-or-above-the-reserve-we-selected-on-our-commitment-and-both-dust-exposures-within-our-limit
+    r is Ok ==> local_stats_at(*self, *funding, new_feerate_per_kw).commitment_stats.counterparty_balance_msat as int >= funding.holder_selected_channel_reserve_satoshis as int * 1000
+        && exists|lim: Option<u32>| local_stats_at(*self, *funding, new_feerate_per_kw).commitment_stats.dust_exposure_msat <= #[trigger] max_dust_exposure(*self, lim)
+            && remote_stats_at(*self, *funding, new_feerate_per_kw).commitment_stats.dust_exposure_msat <= max_dust_exposure(*self, lim),
+//@mutant funder_may_dip_below_the_reserve
+    .checked_sub(funding.holder_selected_channel_reserve_satoshis * 1000)
+//@with
+    .checked_sub(funding.holder_selected_channel_reserve_satoshis)
+//@mutant remote_dust_exposure_not_checked
+    if remote_stats.commitment_stats.dust_exposure_msat > max_dust_htlc_exposure_msat {
+//@with
+    if false {
 //@end
 }
 }
